@@ -31,6 +31,7 @@ ASSUMPTIONS = [
 STRIDES = {"quick": 8, "thorough": 16}
 
 FEAT = gen.feat(
+    p_self=0.12,
     bodies={"leaf": 4, "next": 3, "rec": 1.5, "fnext": 0.5, "next2": 0.4,
             "next_other": 0.3, "rec_next": 0.5},
     p_kw=0.1, p_optional=0.1, ncorpus=(4, 6), nmeth=(3, 6),
@@ -134,6 +135,12 @@ def make_family(spec, regs, corpus, tkind, label, pos=0):
     c0 = corpus[0]
     other = pick_other(corpus, c0)
     extra, bad = "mx", "mbad"
+    if "mtop" not in spec["methods"]:
+        # a valid, applicable, high-priority catch-all: registering it visibly changes most outcomes
+        proto = spec["methods"][regs[0][0]]
+        spec["methods"]["mtop"] = {
+            "params": [[p[0], p[1], ["o"], p[3]] for p in proto["params"]],
+            "prio": 9, "body": ["leaf"]}
     if tkind == "first_call":
         fam["target"] = {"op": "call", "c": c0}
     elif tkind == "first_resolve":
@@ -153,11 +160,17 @@ def make_family(spec, regs, corpus, tkind, label, pos=0):
         fam["target"] = {"op": "unregister", "mid": victim}
         fam["concerned"] = victim
     elif tkind == "replace":
-        # re-register an already present method object: same signature, pushes the old one down
+        # register a *twin* (another function of identical signature): pushes the old one down
         fam["pre"] = [{"op": "call", "c": other}]
         victim = regs[min(pos, len(regs) - 1)][0]
-        fam["target"] = {"op": "register", "mid": victim}
-        fam["concerned"] = victim
+        twin = victim + "t"
+        if twin not in spec["methods"]:
+            t = json.loads(json.dumps(spec["methods"][victim]))
+            if t["body"][0] == "bad_next":
+                t["body"] = ["leaf"]
+            spec["methods"][twin] = t
+        fam["target"] = {"op": "register", "mid": twin}
+        fam["concerned"] = twin
     elif tkind == "invalid_first":
         regs.insert(min(pos, len(regs)), [bad])
         fam["regs"] = regs
@@ -350,7 +363,22 @@ def execute(scen):
     if violation is None:
         steps = []
         if offender is not None:
-            steps.append(({"op": "unregister", "mid": offender}, without(before, offender)))
+            # a further valid registration while the offender is still there: it may be refused with
+            # a configuration error, but the function must not keep serving the table without it
+            s1 = without(before, offender) + [["mtop", None]]
+            r = h.apply({"op": "register", "mid": "mtop"})
+            probes = h.probes(corpus)
+            ref = ref_outcomes(spec, s1, corpus, key)
+            for i, (p, rf) in enumerate(zip(probes, ref)):
+                ok = p == rf or (p[0] == "err" and not p[1] and not is_dispatch_verdict(p)
+                                 and p[2][0] == "config")
+                if not ok:
+                    violation = viol("after-invalid-build: after a further registration the function serves "
+                                     "a table that lacks a registered method",
+                                     probe_index=i, probe=p, expected=rf, register_result=r,
+                                     symptom=symptom(p, rf))
+                    break
+            steps.append(({"op": "unregister", "mid": offender}, s1))
         elif fam["concerned"] is not None:
             m = fam["concerned"]
             s1 = without(before, m)
@@ -361,7 +389,7 @@ def execute(scen):
             s1 = before + [["mx", None]]
             steps.append(({"op": "register", "mid": "mx"}, s1))
             steps.append(({"op": "unregister", "mid": "mx"}, before))
-        for op, expect_set in steps:
+        for op, expect_set in (steps if violation is None else []):
             r = h.apply(op)
             if r[0] != "ok":
                 violation = viol("recovery: a later change of the method set is refused",
